@@ -41,10 +41,8 @@ int libwifi_tag_iterator_next(struct libwifi_tag_iterator *it) {
         return -1;
     }
 
+    // An element with an empty body is an element like any other
     it->tag_header = it->_next_tag_header;
-    if (it->tag_header->tag_len <= 0) {
-        return -1;
-    }
 
     unsigned long bytes_left = (char *) it->_frame_end - (char *) it->tag_header;
     if (it->tag_header->tag_len >= bytes_left) {
